@@ -455,7 +455,10 @@ def _known_nullable_int_as_float(v):
         if not v.get("same_shape") or len(el) != len(gl):
             return False
         diff = [(x, y) for x, y in zip(el, gl) if x != y]
-        return bool(diff) and all(isinstance(x, (int, float)) and isinstance(y, (int, float)) and max(abs(x), abs(y)) > 2 ** 53 and float(x) == float(y)
+        # ... or by a few units in the last place of float64 when the rounded values are then ADDED in a different order
+        # (sum / mean of such a column with another thread split): still the float64 detour of integers beyond 2**53
+        return bool(diff) and all(isinstance(x, (int, float)) and isinstance(y, (int, float)) and max(abs(x), abs(y)) > 2 ** 53
+                                  and (float(x) == float(y) or abs(x - y) <= max(abs(x), abs(y)) * 2.0 ** -49)
                                   for x, y in diff)
     if not isinstance(e, int) or not isinstance(g, (int, float)) or abs(e) <= 2 ** 53:
         return False
